@@ -4,8 +4,10 @@ patch (seeded/benign/*.diff) to a scratch worktree of /repo HEAD and run all cla
 (VERIF_REPO / VERIF_OUT).  Updates seeded/<id>/meta.json and writes seeded/results.json + seeded/RESULTS.md."""
 import json, os, re, shutil, subprocess, sys, time, glob
 VERIF = os.path.dirname(os.path.dirname(os.path.abspath(__file__)))
-WT = '/tmp/seedchk-wt'
-OUT = '/tmp/seedchk-out'
+SHARD = os.environ.get('SHARD', '0/1')
+SI, SN = [int(x) for x in SHARD.split('/')]
+WT = '/tmp/seedchk-wt%d' % SI
+OUT = '/tmp/seedchk-out%d' % SI
 
 def sh(cmd, cwd=None, env=None):
     e = dict(os.environ)
@@ -34,12 +36,13 @@ def main():
         items.append((os.path.basename(b)[:-5], b, 'benign'))
     if ids:
         items = [i for i in items if i[0] in ids or i[0].split('-')[0] in ids]
+    items = [it for k, it in enumerate(items) if k % SN == SI]
     if os.path.exists(WT):
         sh('git -C /repo worktree remove --force %s' % WT)
     rc, o = sh('git -C /repo worktree add --detach %s HEAD' % WT)
     assert rc == 0, o
     results = {}
-    rp = os.path.join(VERIF, 'seeded', 'results.json')
+    rp = os.path.join(VERIF, 'seeded', 'results.json' if SN == 1 else 'results-%d.json' % SI)
     if os.path.exists(rp) and ids:
         results = json.load(open(rp))
     try:
@@ -72,7 +75,12 @@ def main():
     finally:
         sh('git -C /repo worktree remove --force %s' % WT)
         shutil.rmtree(OUT, ignore_errors=True)
-    # table
+    if SN != 1:
+        return
+    write_table(results)
+
+
+def write_table(results):
     lines = ['| change | kind | own property | caught by (VIOLATION) | undecided (exit 2) |', '|---|---|---|---|---|']
     for sid in sorted(results):
         r = results[sid]
@@ -85,4 +93,12 @@ def main():
     open(os.path.join(VERIF, 'seeded', 'RESULTS.md'), 'w').write('\n'.join(lines) + '\n')
 
 if __name__ == '__main__':
-    main()
+    if len(sys.argv) > 1 and sys.argv[1] == '--merge':
+        res = {}
+        for f in sorted(glob.glob(os.path.join(VERIF, 'seeded', 'results-*.json'))):
+            res.update(json.load(open(f)))
+            os.remove(f)
+        json.dump(res, open(os.path.join(VERIF, 'seeded', 'results.json'), 'w'), indent=1)
+        write_table(res)
+    else:
+        main()
